@@ -145,8 +145,9 @@ func CompareValues(left r.Element, right r.Element, verb uint8) (bool, error) {
 			if len(vl.value) != len(vr.value) {
 				return false, nil
 			}
-			// cmp each item
-			for idx := range vl.value {
+			// cmp each item - in the dictionary's key order, so that which entry decides
+			// (the first unequal one, or the first one that cannot be compared) is reproducible
+			for _, idx := range vl.OrderedKeys() {
 				// ensure the key exists on vr
 				vrr, ok := vr.value[idx]
 				if !ok {
